@@ -367,18 +367,20 @@ def q3(ctx):
     ctx.check(r[0] == "call" and r[1] == "compose_partial" and [strip_role(x) for x in r[3]] == [("param", "self"), ("param", "other")], "compose-delegates", "compose = compose_partial(self, other) (+ ghost assertion)",
               "compose is %s" % role_str(r), where_of(cm))
     # inverse / identity / bijection_from_fresh_to
-    b = m(crate, "inverse")
-    ins = loop_inserts(crate, b)
-    ok = len(ins) == 1 and comp(ins[0][1]) == ("self", "1") and comp(ins[0][2]) == ("self", "0")
-    ctx.check(ok, "inverse-swaps", "inverse inserts (y, x) for every (x, y)", "inverse inserts (%s, %s)" % (role_str(ins[0][1]) if ins else "?", role_str(ins[0][2]) if ins else "?"), where_of(b))
-    b = m(crate, "identity")
-    ins = loop_inserts(crate, b)
-    ok = len(ins) == 1 and ins[0][1] == ins[0][2] and comp(ins[0][1])[0] == "set"
-    ctx.check(ok, "identity-maps-x-to-x", "identity inserts (x, x) for every x of the set", "identity inserts (%s, %s)" % (role_str(ins[0][1]) if ins else "?", role_str(ins[0][2]) if ins else "?"), where_of(b))
-    b = m(crate, "bijection_from_fresh_to")
-    ins = loop_inserts(crate, b)
-    ok = len(ins) == 1 and ins[0][1][0] == "call" and ins[0][1][1] == "fresh" and comp(ins[0][2])[0] == "set"
-    ctx.check(ok, "fresh-to-x", "bijection_from_fresh_to inserts (fresh, x)", "bijection_from_fresh_to inserts (%s, %s)" % (role_str(ins[0][1]) if ins else "?", role_str(ins[0][2]) if ins else "?"), where_of(b))
+    def pairs_of(name):
+        b_ = m(crate, name)
+        return b_, [(k, v) for k, v, _, _, _ in result_pairs(crate, b_)]
+    b, ps = pairs_of("inverse")
+    ok = len(ps) == 1 and ps[0][0][0] == "elem" and ps[0][1][0] == "elem" and ps[0][0][1] == ps[0][1][1] == "self" and (ps[0][0][2], ps[0][1][2]) == ("1", "0")
+    ctx.check(ok, "inverse-swaps", "inverse inserts (y, x) for every (x, y)", "inverse builds the pairs %s" % ps, where_of(b))
+    b, ps = pairs_of("identity")
+    ok = len(ps) == 1 and ps[0][0] == ps[0][1] and ps[0][0][0] == "elem" and ps[0][0][1] == "set"
+    ctx.check(ok, "identity-maps-x-to-x", "identity inserts (x, x) for every x of the set", "identity builds the pairs %s" % ps, where_of(b))
+    b, ps = pairs_of("bijection_from_fresh_to")
+    ok = len(ps) == 1 and ps[0][0] == ("fresh",) and ps[0][1][0] == "elem" and ps[0][1][1] == "set"
+    ctx.check(ok, "fresh-to-x", "bijection_from_fresh_to inserts (fresh, x)", "bijection_from_fresh_to builds the pairs %s" % ps, where_of(b))
+    for nm_ in ("inverse", "identity", "bijection_from_fresh_to"):
+        ctx.check(visits_all_of(crate, m(crate, nm_), "self" if nm_ == "inverse" else "set"), "visits-all:" + nm_, "%s visits every element" % nm_, "%s does not visit every element of its input" % nm_, where_of(m(crate, nm_)))
     for nm_ in ("inverse", "identity", "bijection_from_fresh_to"):
         b = m(crate, nm_)
         for l in C.iterator_loops(b):
